@@ -885,5 +885,81 @@ example : rowTotal exC exP 0 = 12 / 5 ∧ rowTotal exC exP 0 ≠ 0 ∧
 
 end background
 
+/-! ### (7) from sequences to frequencies: the row total is `n + Σ pseudo` -/
+
+section chain
+variable {K : Nat}
+
+theorem sum_ite_eq_range (K x : Nat) (hx : x < K) :
+    ((List.range K).map fun a => if x = a then 1 else 0).sum = 1 := by
+  induction K with
+  | zero => omega
+  | succ n ih =>
+    rw [List.range_succ, List.map_append, List.sum_append]
+    by_cases h : x = n
+    · subst h
+      have : ((List.range x).map fun a => if x = a then 1 else 0) = (List.range x).map fun _ => 0 := by
+        apply List.map_congr_left
+        intro a ha
+        have : x ≠ a := by have := List.mem_range.mp ha; omega
+        simp [this]
+      rw [this]; simp
+    · rw [ih (by omega)]; simp [h]
+
+/-- every position of an aligned set is counted exactly once per sequence: the counts of row `i`
+    sum to the number of sequences -/
+theorem colCount_row_sum (seqs : List (List Nat)) (i : Nat)
+    (h : ∀ s ∈ seqs, ∃ x, s[i]? = some x ∧ x < K) :
+    ((List.range K).map (colCount seqs i)).sum = seqs.length := by
+  induction seqs with
+  | nil =>
+    have : (List.range K).map (colCount [] i) = (List.range K).map fun _ => 0 := by
+      apply List.map_congr_left; intro a _; rfl
+    rw [this]; simp
+  | cons s rest ih =>
+    have ⟨x, hx, hxK⟩ := h s (by simp)
+    have e : (List.range K).map (colCount (s :: rest) i)
+        = (List.range K).map (fun a => (if x = a then 1 else 0) + colCount rest i a) := by
+      apply List.map_congr_left
+      intro a _
+      rw [colCount_cons, hx]
+      simp
+    rw [e, List.sum_map_add, sum_ite_eq_range K x hxK, ih (fun t ht => h t (by simp [ht]))]
+    simp; omega
+
+/-- **from aligned sequences to frequencies**: with `n` equal-length sequences over the alphabet,
+    the frequency of symbol `a` at position `i` is
+    `(#sequences with a at i + pseudo[a]) / (n + Σ pseudo)` -/
+theorem freq_of_sequences (seqs : List (List Nat)) (p : Nat → Rat)
+    (hsym : ∀ s ∈ seqs, ∀ x ∈ s, x < K) (hlen : ∀ s ∈ seqs, s.length = firstLen seqs)
+    (hden : (seqs.length : Rat) + ((List.range K).map p).sum ≠ 0) :
+    ∃ c, fromSequences (K := K) seqs = .ok c ∧
+      ∀ i a, i < firstLen seqs → a < K →
+        (toFreq c.data p).get i a
+          = ((colCount seqs i a : Rat) + p a) / ((seqs.length : Rat) + ((List.range K).map p).sum) := by
+  have ⟨c, hc, _, hrows, hget⟩ := fromSequences_ok seqs hsym hlen
+  refine ⟨c, hc, ?_⟩
+  intro i a hi ha
+  have htot : rowTotal c.data p i = (seqs.length : Rat) + ((List.range K).map p).sum := by
+    unfold rowTotal
+    have e : (List.range K).map (fun j => (c.data.get i j : Rat) + p j)
+        = (List.range K).map (fun j => ((colCount seqs i j : Nat) : Rat) + p j) := by
+      apply List.map_congr_left
+      intro j hj
+      rw [hget i j hi (List.mem_range.mp hj)]
+    rw [e, List.sum_map_add]
+    congr 1
+    have := colCount_row_sum (K := K) seqs i (fun s hs => by
+      have hl : i < s.length := by rw [hlen s hs]; exact hi
+      exact ⟨s[i], by simp [hl], hsym s hs _ (List.getElem_mem _)⟩)
+    rw [← this]
+    induction (List.range K) with
+    | nil => simp
+    | cons x xs ih => simp only [List.map_cons, List.sum_cons, ih]; push_cast; ring
+  rw [freq_eq c.data p i a (by rw [hrows]; exact hi) ha (by rw [htot]; exact hden), htot,
+    hget i a hi ha]
+
+end chain
+
 end C09
 end LMV
